@@ -694,6 +694,36 @@ theorem rebuild_get (s : State) (hwf : WF s) (x y : Str) : get (rebuild s) x y =
   · have hno : ∀ v, ((norm x y).1, (norm x y).2, v) ∉ items s := fun v hv => hex ⟨v, hv⟩
     rw [h2 (fun v hv => hno v (List.mem_reverse.mp hv)), get_not_stored s hwf x y hno]
 
+/-- the listed items re-inserted IN ANY ORDER (a writer may sort its rows, a reader meets them in file order) give a container
+with the same similarities -/
+theorem rebuild_any_order (s : State) (hwf : WF s) (L : List (Str × Str × Int)) (hperm : L.Perm (items s)) (x y : Str) :
+    get (run (L.map itemOp)) x y = get s x y := by
+  rw [get_run]
+  obtain ⟨hnd, hprop⟩ := items_spec s hwf
+  have hmem : ∀ t, t ∈ L.reverse ↔ t ∈ items s := fun t => by rw [List.mem_reverse]; exact hperm.mem_iff
+  have hsle : ∀ t ∈ L.reverse, sle t.1 t.2.1 = true ∧ 0 ≤ t.2.2 := by
+    intro t ht
+    obtain ⟨h1, _, h3⟩ := hprop t.1 t.2.1 t.2.2 ((hmem t).mp ht)
+    exact ⟨h1, h3⟩
+  have hnd' : (L.reverse.map (fun t => (t.1, t.2.1))).Nodup := by
+    have hp : (L.reverse.map (fun t => (t.1, t.2.1))).Perm ((items s).map (fun t => (t.1, t.2.1))) :=
+      ((List.reverse_perm L).trans hperm).map _
+    exact hp.symm.nodup hnd
+  rw [← List.map_reverse]
+  obtain ⟨h1, h2⟩ := spec_items L.reverse hsle hnd' x y
+  by_cases hex : ∃ v, ((norm x y).1, (norm x y).2, v) ∈ items s
+  · obtain ⟨v, hv⟩ := hex
+    rw [h1 v ((hmem _).mpr hv)]
+    obtain ⟨_, hg, _⟩ := hprop _ _ v hv
+    have : get s x y = get s (norm x y).1 (norm x y).2 := by
+      unfold norm
+      cases hxy : sle x y
+      · simp only [Bool.false_eq_true, if_false]; exact get_comm s x y
+      · simp
+    rw [this, hg]
+  · have hno : ∀ v, ((norm x y).1, (norm x y).2, v) ∉ items s := fun v hv => hex ⟨v, hv⟩
+    rw [h2 (fun v hv => hno v ((hmem _).mp hv)), get_not_stored s hwf x y hno]
+
 /-! ### file framing -/
 
 theorem unframeAux_false (ls : List Str) : unframeAux false ls = ([], ls) := by
